@@ -1278,6 +1278,110 @@ def corpus_sessions():
     ]
 
 
+def random_write(rng, cur, t):
+    """one write to the referenced path t in the state cur (see gen_session)"""
+    content, st = cur[t[0]][t[1]]
+    k = rng.random()
+    if st == 'missing':
+        wr = {'content': rng.choice(CONTENTS), 'state': 'file', 'kind': 'create'}
+    elif k < 0.45 and same_size_other(rng, content) is not None:
+        wr = {'content': same_size_other(rng, content), 'state': 'file', 'kind': 'same_size'}
+    elif k < 0.65:
+        wr = {'content': content + rng.choice(['+more', 'Q']), 'state': 'file', 'kind': 'other_size'}
+    elif k < 0.85:
+        wr = {'content': content, 'state': 'file', 'kind': 'same_contents'}
+    else:
+        wr = {'content': content, 'state': 'missing', 'kind': 'remove'}
+    wr.update(table=t[0], key=t[1], time=rng.choice(SESSION_TIMES))
+    return wr
+
+
+def gen_keep_session(rng, base=None):
+    """the SAME objects asked again WITHOUT memoization_reset() (what Controller.can_memoize, the logging of the candidates
+    and Experiment.annotate_component_documents do: they read the properties of the one ComponentSpecification of the
+    graph whenever they need them).  Mostly: some referenced inputs / producer-made files do not exist yet at the first
+    ask (the consumers, and the consumers of those, have no hash), then they appear (sometimes only some of them, sometimes
+    other paths are rewritten or removed as well) and all / some components are asked again, once or several times; now
+    and then a reset or a new Experiment object in between.  The selections are closed under "consumes from"."""
+    w = copy.deepcopy(base) if base is not None else gen_world(rng)
+    n = len(w['comps'])
+    paths = session_paths(w)
+    if not paths:
+        return None
+    if rng.random() < 0.85:
+        # prefer files made by producers (a consumer looked at while its producer still runs)
+        prod = [t for t in paths if t[0] == 'out']
+        for t in rng.sample(paths, min(len(paths), rng.choice([1, 1, 2]))) + ([rng.choice(prod)] if prod and rng.random() < 0.6 else []):
+            w[t[0]][t[1]][1] = 'missing'
+    sess = {'world': w, 'first': None, 'rounds': [], 'cached': True}
+    x = rng.random()
+    if x < 0.55:
+        sess['first'] = list(range(n))
+    elif x < 0.92:
+        sess['first'] = sorted(closure(w, rng.sample(range(n), rng.randint(1, max(1, n - 1)))))
+    cur = copy.deepcopy(w)
+    for rnd in range(rng.choice([1, 2, 2, 3])):
+        paths = session_paths(cur)
+        missing = [t for t in paths if cur[t[0]][t[1]][1] == 'missing']
+        chosen = []
+        if missing and rng.random() < 0.85:
+            chosen = rng.sample(missing, rng.randint(1, len(missing)))
+        if not chosen or rng.random() < 0.3:
+            chosen += [t for t in rng.sample(paths, 1) if t not in chosen]
+        writes = []
+        for t in chosen:
+            wr = random_write(rng, cur, t)
+            cur[t[0]][t[1]] = [wr['content'], wr['state']]
+            writes.append(wr)
+        view = rng.choice(['keep'] * 8 + ['reset', 'fresh'])
+        sel = list(range(n)) if rng.random() < 0.6 else sorted(closure(cur, rng.sample(range(n), rng.randint(1, max(1, n - 1)))))
+        sess['rounds'].append({'writes': writes, 'view': view, 'sel': sel})
+    return sess
+
+
+def corpus_keep_sessions():
+    """the boundary of 'asked early': a chain A <- B <- C (C references the working directory of B) asked while A has not
+    written out.txt, then out.txt appears; a consumer by :copy (reference not on the command line) of an input that is
+    staged late; some of the objects asked early, the others only later; the input removed again after an info was
+    computed and kept"""
+    loc = ('local',)
+
+    def chain():
+        return {'inputs': {'in0.txt': ['hello', 'file']}, 'data': {'d0.txt': ['dd', 'file']}, 'datadirs': ['sub0'],
+                'out': {'0/out.txt': ['hello', 'missing']}, 'abs': {}, 'comps': [
+                    {'name': 'A', 'stage': 0, 'exe': 'echo', 'refs': [], 'args': ['hello'], 'backend': loc},
+                    {'name': 'B', 'stage': 1, 'exe': 'cat', 'refs': [{'kind': 'prodfile', 'prod': 0, 'path': 'out.txt', 'method': 'ref',
+                                                                     'spelling': 'abs'}], 'args': [0], 'backend': loc},
+                    {'name': 'C', 'stage': 2, 'exe': 'ls', 'refs': [{'kind': 'proddir', 'prod': 1, 'path': '', 'method': 'ref',
+                                                                    'spelling': 'abs'}], 'args': [0], 'backend': loc}]}
+
+    def late_input():
+        return {'inputs': {'in0.txt': ['hello', 'missing']}, 'data': {'d0.txt': ['dd', 'file']}, 'datadirs': ['sub0'],
+                'out': {'0/out.txt': ['OUT', 'file']}, 'abs': {}, 'comps': [
+                    {'name': 'gen', 'stage': 0, 'exe': 'echo', 'refs': [{'kind': 'data', 'path': 'd0.txt', 'method': 'ref'}],
+                     'args': ['-n', 0], 'backend': loc},
+                    {'name': 'use', 'stage': 0, 'exe': 'cat', 'refs': [{'kind': 'prodfile', 'prod': 0, 'path': 'out.txt', 'method': 'ref',
+                                                                       'spelling': 'rel'},
+                                                                      {'kind': 'input', 'path': 'in0.txt', 'method': 'copy'}],
+                     'args': [0], 'backend': ('kubernetes', 'img:1')}]}
+
+    def wr(table, key, content, kind, time, state='file'):
+        return {'table': table, 'key': key, 'content': content, 'state': state, 'kind': kind, 'time': time}
+    return [
+        {'world': chain(), 'cached': True, 'first': [0, 1, 2], 'rounds': [
+            {'writes': [wr('out', '0/out.txt', 'hello', 'create', 'natural')], 'view': 'keep', 'sel': [0, 1, 2]},
+            {'writes': [wr('out', '0/out.txt', 'hellO', 'same_size', 'keep')], 'view': 'keep', 'sel': [0, 1, 2]},
+            {'writes': [], 'view': 'reset', 'sel': [0, 1, 2]}]},
+        {'world': chain(), 'cached': True, 'first': [0, 1], 'rounds': [
+            {'writes': [], 'view': 'keep', 'sel': [0, 1, 2]},
+            {'writes': [wr('out', '0/out.txt', 'hello', 'create', 'natural')], 'view': 'keep', 'sel': [0, 1, 2]}]},
+        {'world': late_input(), 'cached': True, 'first': [0, 1], 'rounds': [
+            {'writes': [wr('inputs', 'in0.txt', 'hello', 'create', 'natural')], 'view': 'keep', 'sel': [0, 1]},
+            {'writes': [wr('inputs', 'in0.txt', 'hello', 'remove', 'keep', 'missing')], 'view': 'keep', 'sel': [0, 1]},
+            {'writes': [], 'view': 'fresh', 'sel': [0, 1]}]},
+    ]
+
+
 def session_target(inst, w, wr):
     if wr['table'] == 'inputs':
         return os.path.join(inst, 'input', wr['key'])
@@ -1356,8 +1460,17 @@ def run_sessions(ctx, drv, sessions):
             oracles = [drv.oracles(nodes['stage%d.%s' % (c['stage'], c['name'])]['componentSpecification'], w0, c) for c in w0['comps']]
             asks = []       # (sel, observations, world at that time, round)
             cur = copy.deepcopy(w0)
+            # what the objects hold: the first info (and hash) each component answered since the last reset / new object
+            held = {'strong': {}, 'fuzzy': {}}
+
+            def note(sel, obs):
+                for i, o in zip(sel, obs):
+                    for flav in ('strong', 'fuzzy'):
+                        if o[flav][0] is not None and i not in held[flav]:
+                            held[flav][i] = (o[flav][0], o[flav][2])
             if sess['first'] is not None:
                 asks.append((sess['first'], drv.ask(exp, cur, sel=sess['first']), copy.deepcopy(cur), None))
+                note(sess['first'], asks[-1][1])
             changed = False
             for rn, rnd in enumerate(sess['rounds']):
                 for wr in rnd['writes']:
@@ -1370,14 +1483,38 @@ def run_sessions(ctx, drv, sessions):
                 ctx.count('session_view_%s' % rnd['view'])
                 if rnd['view'] == 'fresh':
                     exp = drv.D.Experiment.experimentFromInstance(inst)
+                if rnd['view'] in ('fresh', 'reset'):
+                    held = {'strong': {}, 'fuzzy': {}}
                 obs = drv.ask(exp, cur, sel=rnd['sel'], reset=(rnd['view'] == 'reset'))
                 asks.append((rnd['sel'], obs, copy.deepcopy(cur), rn))
                 # the same contents in an instance elsewhere that never held anything else
                 ref = drv.observe(cur)
                 by = dict(zip(rnd['sel'], obs))
+                # objects asked again without a reset (mirror of C16_cached_ask / C16_asked_early): an info that was
+                # computed is kept; when everything that is kept is what the files give now, every answer -- in particular
+                # of the components that had NO info when they were asked earlier -- is the one of objects never asked
+                agrees = {flav: all(v == (ref[k][flav][0], ref[k][flav][2]) for k, v in held[flav].items())
+                          for flav in ('strong', 'fuzzy')}
+                if rnd['view'] == 'keep':
+                    for flav in ('strong', 'fuzzy'):
+                        ctx.count('session_keep_%s_%s' % (flav, 'agrees' if agrees[flav] else 'holds_older_info'))
+                        none_before = [i for i in rnd['sel'] if i not in held[flav] and
+                                       any(i in a[0] for a in asks[:-1]) and ref[i][flav][2] is not None]
+                        if agrees[flav] and none_before:
+                            ctx.count('session_keep_%s_asked_early_now_computable' % flav)
                 for i in rnd['sel']:
                     case = {'session': sess, 'round': rn, 'comp': i}
                     for flav in ('strong', 'fuzzy'):
+                        if rnd['view'] == 'keep' and not agrees[flav]:
+                            continue        # the objects hold an info of earlier contents: kept by design (see the model)
+                        if rnd['view'] == 'keep' and (by[i][flav][2] != ref[i][flav][2] or by[i][flav][0] != ref[i][flav][0]):
+                            ctx.fail(dict(case, flavour=flav, got=by[i][flav][0], fresh_instance=ref[i][flav][0],
+                                          asked_before=[a[0] for a in asks[:-1]]),
+                                     'the %s memoization info/hash of a component asked again on the same objects (no reset; every '
+                                     'info these objects computed earlier is still what the files give) is not the one of an '
+                                     'instance with the same contents that is asked for the first time: what was answered '
+                                     'earlier (no hash while an input was missing) decides, not the work the component does' % flav, [])
+                            continue
                         if by[i][flav][2] != ref[i][flav][2] or by[i][flav][0] != ref[i][flav][0]:
                             ctx.fail(dict(case, flavour=flav, got=by[i][flav][0], fresh_instance=ref[i][flav][0]),
                                      'the %s memoization hash computed after referenced files were rewritten in place is not the one of '
@@ -1390,8 +1527,9 @@ def run_sessions(ctx, drv, sessions):
                             ctx.fail(dict(case, flavour=flav, files=info['files'], expected=want),
                                      'the file entries of the %s memoization info are not the digests of the CURRENT contents of the '
                                      'files the component consumes' % flav, [])
-                if len(rnd['sel']) == n:
+                if len(rnd['sel']) == n and (rnd['view'] != 'keep' or (agrees['strong'] and agrees['fuzzy'])):
                     check_world(ctx, cur, obs, 'session')
+                note(rnd['sel'], obs)
             nontriv = changed and any(o['strong'][2] is not None and o['strong'][0].get('files') for o in asks[-1][1])
             ctx.case(['session', sess], nontriv)
             ctx.count('sessions')
@@ -1414,18 +1552,23 @@ def coq_session(sess, asks, oracles):
     comps, contents = model_comps(w0)
     comps = ['(%s, (%s, %s))' % (cm, clist(o['disc'], cstr), clist(o['order'], cnat)) for cm, o in zip(comps, oracles)]
     ops, answers = [], []
+    # sessions of objects that remember: Memo.Model.csession (CWrite / CClear / CAsk)
+    cached = bool(sess.get('cached'))
+    K = 'C' if cached else 'O'
 
     def ask_ops(sel, obs):
         for flav, fz in (('strong', 'false'), ('fuzzy', 'true')):
-            ops.append('OAsk %s %s' % (fz, clist(sel, cnat)))
+            ops.append('%sAsk %s %s' % (K, fz, clist(sel, cnat)))
             answers.append(clist([coq_obs(o[flav]) for o in obs]))
     tbl = {}
     for sel, obs, cur, rn in asks:
         if rn is not None:
             for wr in sess['rounds'][rn]['writes']:
                 st = '(FFile %s)' % cstr(wr['content']) if wr['state'] == 'file' else 'FMissing'
-                ops.append('OWrite %s %s %s' % (cstr(session_location(w0, wr)), cZ(TIME_Z[wr['time']]), st))
+                ops.append('%sWrite %s %s %s' % (K, cstr(session_location(w0, wr)), cZ(TIME_Z[wr['time']]), st))
                 contents.append(wr['content'])
+            if cached and sess['rounds'][rn]['view'] in ('reset', 'fresh'):
+                ops.append('CClear')
         ask_ops(sel, obs)
         for o in obs:
             for flav in ('strong', 'fuzzy'):
@@ -1525,15 +1668,21 @@ def explore(ctx, families, sessions=()):
         ctx.disagree({'world': w}, [{'strong': o['strong'], 'fuzzy': o['fuzzy']} for o in obs], m,
                      'C16 info: memoization_info/_fuzzy, traversal buffer and hash vs Memo.Model.infos_chars/infos/serialise')
     # sessions: every answer against Memo.Model.session_chars (and session, the token model, on blank-delimited worlds)
-    splain = [t for t in sterms if not special(t[1]['world'])]
-    sbound = [t for t in sterms if special(t[1]['world'])]
+    splain = [t for t in sterms if not special(t[1]['world']) and not t[1].get('cached')]
+    sbound = [t for t in sterms if special(t[1]['world']) and not t[1].get('cached')]
+    cplain = [t for t in sterms if not special(t[1]['world']) and t[1].get('cached')]
+    cbound = [t for t in sterms if special(t[1]['world']) and t[1].get('cached')]
     sbad = [splain[i] for i in ctx.model_mismatches(HEADER, [t[0] for t in splain], 'check_session_both', chunk=20, name='session')]
     sbad += [sbound[i] for i in ctx.model_mismatches(HEADER, [t[0] for t in sbound], 'check_session_chars', chunk=20, name='session_boundary')]
+    # the same objects asked again without reset: Memo.Model.csession_chars / csession
+    sbad += [cplain[i] for i in ctx.model_mismatches(HEADER, [t[0] for t in cplain], 'check_csession_both', chunk=20, name='csession')]
+    sbad += [cbound[i] for i in ctx.model_mismatches(HEADER, [t[0] for t in cbound], 'check_csession_chars', chunk=20, name='csession_boundary')]
     for n, t in enumerate(sbad):
         term, sess, asks = t
         m = ''
         if n < 2:
-            m = ctx.model_eval(HEADER, 'let k := %s in session_chars (tbl_md5 (fst (fst k))) (snd (fst k)) (fst (snd k))' % term)[-9000:]
+            m = ctx.model_eval(HEADER, 'let k := %s in %s (tbl_md5 (fst (fst k))) (snd (fst k)) %s(fst (snd k))' % (
+                term, 'csession_chars' if sess.get('cached') else 'session_chars', '[] [] ' if sess.get('cached') else ''))[-9000:]
         ctx.disagree({'session': sess}, [[{'strong': o['strong'], 'fuzzy': o['fuzzy']} for o in a[1]] for a in asks], m,
                      'C16 session: hashes asked repeatedly while the referenced files change vs Memo.Model.session_chars/session')
 
@@ -1570,7 +1719,10 @@ def run(ctx):
                 'components, then 1-3 rounds of writes in place to referenced inputs, data files and producer-made files (other '
                 'contents of the same size | other size | same contents | removal | creation; modification time kept | same second | '
                 'clock | later | earlier) each followed by an ask after memoization_reset() | on a new Experiment object of the same '
-                'directory | on components never asked before; plus random nested '
+                'directory | on components never asked before; sessions of objects that REMEMBER: some referenced inputs / '
+                'producer-made files missing at a first ask of all / some components (closed under consumes-from), then rounds in '
+                'which the missing paths appear (all or some; other paths rewritten / removed too) each followed by an ask of all / '
+                'some components on the SAME objects without reset (8 in 10), after a reset or on a new Experiment; plus random nested '
                 'dictionaries for the traversal alone. non-trivial world = some component has a hash and consumes a file or a '
                 'producer; distinct by (world description, aspect)')
     families = []
@@ -1598,6 +1750,13 @@ def run(ctx):
     for i in range(22 if ctx.tier == 'quick' else 90):
         base = chain_world(rng, rng.randint(1, 3)) if i % 5 == 4 else None
         sess = gen_session(rng, base)
+        if sess is not None:
+            sessions.append(sess)
+    # ... and asked again on the SAME objects without reset, mostly after inputs that were missing at the first ask appeared
+    sessions += corpus_keep_sessions()
+    for i in range(14 if ctx.tier == 'quick' else 56):
+        base = chain_world(rng, rng.randint(1, 3)) if i % 3 == 2 else None
+        sess = gen_keep_session(rng, base)
         if sess is not None:
             sessions.append(sess)
     explore(ctx, families, sessions)
